@@ -1,4 +1,5 @@
 import SLE.Driver.Disasm
+import SLE.Driver.Containers
 /-! `sle_driver`: reads `family\tpayload\timpl_answer`, prints `model_answer\toracle_verdict`. -/
 open SLE.Driver
 
@@ -7,6 +8,8 @@ def handleLine (line : String) : String :=
   | [fam, payload, impl] =>
     let (m, o) := match fam with
       | "disasm" => Disasm.handle payload impl
+      | "vmap" => Containers.handleVmap payload impl
+      | "ds" => Containers.handleDs payload impl
       | _ => ("unknown-family", "ok")
     m ++ "\t" ++ o
   | _ => "bad-line\tok"
